@@ -919,3 +919,39 @@ Qed.
 Example ex_split_form :
   ex_split = firstn 15 ex_split ++ map ren (seq 0 1) ++ map ren (seq 1 (2 - 1)).
 Proof. reflexivity. Qed.
+
+
+(* the executable shape test yields the hypothesis of split_parts *)
+Lemma path_eqb_true : forall p q, path_eqb p q = true -> p = q.
+Proof. exact path_eqb_eq. Qed.
+
+Lemma op_eqb_eq : forall a b, op_eqb a b = true -> a = b.
+Proof.
+  destruct a, b; simpl; intros H; try discriminate;
+    try (apply path_eqb_eq in H; subst; reflexivity).
+  apply andb_true_iff in H as (H1 & H2).
+  apply path_eqb_eq in H1. apply path_eqb_eq in H2. subst; reflexivity.
+Qed.
+
+Lemma ops_eqb_eq : forall a b, ops_eqb a b = true -> a = b.
+Proof.
+  induction a as [|x a IH]; destruct b as [|y b]; simpl; intros H;
+    try discriminate; auto.
+  apply andb_true_iff in H as (H1 & H2). apply op_eqb_eq in H1.
+  f_equal; auto.
+Qed.
+
+Theorem split_shape_form : forall n t j,
+    split_shape n t = true -> j <= n ->
+    t = firstn (length t - n) t
+        ++ map ren (seq 0 j) ++ map ren (seq j (n - j)).
+Proof.
+  intros n t j H Hj. unfold split_shape in H. apply ops_eqb_eq in H.
+  rewrite <- map_app.
+  replace (seq 0 j ++ seq j (n - j)) with (seq 0 n).
+  - rewrite <- H. symmetry. apply firstn_skipn.
+  - replace n with (j + (n - j)) at 1 by lia. rewrite seq_app. reflexivity.
+Qed.
+
+Example ex_split_shape : split_shape 2 ex_split = true.
+Proof. vm_compute. reflexivity. Qed.
